@@ -283,6 +283,56 @@ def h_times(params, model=None):
     return fn
 
 
+def h_prio_path(params, model=None):
+    """the priority an entry is scheduled with is the one the application's prioritise function assigns to its CURRENT path:
+    it follows renames and moves (events with a new path for the same object), on either side"""
+    def fn():
+        e = Env(model)
+        _lab.reset()
+        clk = SymClock(e, False)
+        saved = S.time
+        S.time = clk
+        try:
+            provs = (_lab.mk_provider(False), _lab.mk_provider(False))
+            prios = {}
+
+            def prioritize(side, path):
+                k = (side, path)
+                if k not in prios:
+                    prios[k] = e.int("prio", -1, 2)
+                return prios[k]
+            st = S.SyncState(provs, prioritize=prioritize)
+            side = e.choose("side", 2)
+            st.update(side, S.FILE, "o1", path="/p0", hash=b"h", exists=True)
+            ent = st.lookup_oid(side, "o1")
+            nmoves = e.choose("moves", params["K"] + 1)
+            cur = "/p0"
+            for k in range(nmoves):
+                cur = "/p%d" % (k + 1)
+                how = e.choose("how", 2)
+                if how == 0:
+                    st.update(side, S.FILE, "o1", path=cur, hash=b"h", exists=True)      # rename event
+                else:
+                    ent[side].path = cur                                                      # path refreshed from the provider (get_latest)
+                if not e.holds(ent.priority == prios[(side, cur)], "prio-follows-path"):
+                    return {"ok": False, "info": {"why": "entry keeps a priority assigned to a path it no longer has", "moves": k + 1}}
+            age = e.real("age")
+            e.assume(age >= 0)
+            r = st.change(age)
+            now = clk.reads[-1]
+            want_now = z_or(prios[(side, cur)] < 0, ent[side].changed <= now - age)
+            if r is None:
+                if not e.holds(z_not(want_now), "eligible-by-current-path"):
+                    return {"ok": False, "info": {"why": "entry whose current path is rated 'immediately' (or is aged) was not picked"}}
+            else:
+                if not e.holds(want_now, "eligible-by-current-path"):
+                    return {"ok": False, "info": {"why": "entry picked before ageing although the priority of its current path is not negative"}}
+            return {"ok": True, "key": _trace_key(e), "nontrivial": nmoves > 0}
+        finally:
+            S.time = saved
+    return fn
+
+
 AGES = [0, 0.5, 3, 10]
 
 
@@ -377,7 +427,7 @@ def _mut_pick(params, model=None):
     return fn
 
 
-HARNESSES = {"pick": h_pick, "times": h_times, "engine": h_engine, "pick~flipped": _mut_pick}
+HARNESSES = {"pick": h_pick, "times": h_times, "engine": h_engine, "prio-path": h_prio_path, "pick~flipped": _mut_pick}
 
 
 def replay(harness, params, model):
@@ -410,6 +460,7 @@ def jobs(tier):
         {"harness": "pick", "params": {"N": 2 if q else 3, "both": False, "punts": True}, "label": "pick/N=%d/punts" % (2 if q else 3)},
         {"harness": "pick", "params": {"N": 2 if q else 3, "both": False, "punts": False, "age0": True, "strict": True}, "label": "age0/N=%d" % (2 if q else 3)},
         {"harness": "times", "params": {"K": 3 if q else 5}, "label": "change-times/K=%d" % (3 if q else 5)},
+        {"harness": "prio-path", "params": {"K": 2 if q else 3}, "label": "priority-follows-path/%d-moves" % (2 if q else 3), "smt_dump": 4},
         {"harness": "pick~flipped", "params": {"N": 1, "both": False, "punts": False}, "label": "pick~flipped", "role": "sens"},
     ]
     for f in (["oid"] if q else ["oid", "path"]):
